@@ -267,7 +267,7 @@ func (c *Conn) Abort(err error) {
 // WatchdogTimeout is the generous wall-clock limit for a single wait. Its
 // firing is never by itself a verdict (callers classify it as inconclusive or
 // inspect goroutine stacks).
-var WatchdogTimeout = 60 * time.Second
+var WatchdogTimeout = 20 * time.Second
 
 // Quiesce waits until the serving goroutine has consumed all input and is
 // blocked waiting for more, or has closed the connection. This is a logical
